@@ -3,7 +3,7 @@
 From Model Require Import Bytes Prim Tables Cert KAC Mapping Sig LS RI Validate.
 From Gen Require Import Tables Validators.
 From Coq Require Import Lia.
-From Proofs Require Import BytesLemmas CtorProofs MappingProofs CtorRT ValidatorTie ElsChain LS2Layers Retail SpecRI LS2Accept MetaAccept.
+From Proofs Require Import BytesLemmas CtorProofs MappingProofs CtorRT ValidatorTie ElsChain LS2Layers Retail SpecRI LS2Accept MetaAccept LSStrip.
 Open Scope Z_scope.
 
 Theorem C14_signature : forall d t s, new_signature_from_bytes d t = Ok s ->
@@ -203,6 +203,12 @@ Theorem C14_router_info_parsed_value_parses_back : forall d i r b, wf d -> read_
   exists i', read_router_info b = Ok (i', []) /\ router_info_bytes i' = Ok b.
 Proof. exact read_router_info_reparse. Qed.
 Print Assumptions C14_router_info_parsed_value_parses_back.
+(* LeaseSet (version 1): ReadLeaseSet returns no remainder and ignores what follows the signature;
+   the serialisation of the value it returns, alone, is accepted as the very same value *)
+Theorem C14_lease_set_parsed_value_parses_back : forall d l, wf d -> read_lease_set d = Ok l ->
+  exists b r, lease_set_bytes l = Ok b /\ b ++ r = d /\ read_lease_set b = Ok l.
+Proof. exact read_lease_set_strip. Qed.
+Print Assumptions C14_lease_set_parsed_value_parses_back.
 (* ... and for values that were BUILT, not parsed.  LeaseSet2: any value whose fields fit their
    wire widths (ls2_fits: 32/16-bit header fields, offline block consistent with the flag and of
    the sizes its types dictate, 1..16 keys whose declared length is their length, at most 16
